@@ -31,6 +31,9 @@ type Case struct {
 	Val  any      `json:"val,omitempty"`
 	Mod  string   `json:"mod,omitempty"` // marker same wrap
 	Gen  bool     `json:"gen,omitempty"`
+	// User: the same operation is also run on the tree held in user-defined jp.Keyed /
+	// jp.RemovableIndexed collections
+	User bool `json:"user,omitempty"`
 }
 
 func TestMain(m *testing.M) {
@@ -269,6 +272,68 @@ func frame(before, after any, sel []string, allowShift bool) string {
 		}
 	}
 	return ""
+}
+
+// ---- user-defined collections (jp.Keyed, jp.RemovableIndexed) ----
+
+type keyed struct {
+	keys []string
+	m    map[string]any
+}
+
+func (k *keyed) ValueForKey(key string) (any, bool) { v, ok := k.m[key]; return v, ok }
+func (k *keyed) SetValueForKey(key string, v any) {
+	if _, ok := k.m[key]; !ok {
+		k.keys = append(k.keys, key)
+	}
+	k.m[key] = v
+}
+func (k *keyed) RemoveValueForKey(key string) {
+	delete(k.m, key)
+	for i, x := range k.keys {
+		if x == key {
+			k.keys = append(k.keys[:i], k.keys[i+1:]...)
+			break
+		}
+	}
+}
+func (k *keyed) Keys() []string  { return append([]string(nil), k.keys...) }
+func (k *keyed) CanonValue() any { return k.m }
+
+type indexed struct{ a []any }
+
+func (x *indexed) ValueAtIndex(i int) any {
+	if i < 0 || i >= len(x.a) {
+		return nil
+	}
+	return x.a[i]
+}
+func (x *indexed) SetValueAtIndex(i int, v any) { x.a[i] = v }
+func (x *indexed) RemoveValueAtIndex(i int)     { x.a = append(x.a[:i], x.a[i+1:]...) }
+func (x *indexed) Size() int                    { return len(x.a) }
+func (x *indexed) CanonValue() any              { return x.a }
+
+func wrapUser(v any) any {
+	switch tv := v.(type) {
+	case []any:
+		out := make([]any, len(tv))
+		for i, e := range tv {
+			out[i] = wrapUser(e)
+		}
+		return &indexed{out}
+	case map[string]any:
+		k := &keyed{m: map[string]any{}}
+		keys := make([]string, 0, len(tv))
+		for key := range tv {
+			keys = append(keys, key)
+		}
+		sort.Strings(keys)
+		for _, key := range keys {
+			k.SetValueForKey(key, wrapUser(tv[key]))
+		}
+		return k
+	}
+	return v
 }
 
 func baseOp(op string) (string, bool) {
@@ -585,6 +650,9 @@ func runWith(cs Case, c *vrt.Ctx, before any, res *jpx.Result, extraTag string, 
 			}
 		}
 	}
+	if cs.User && reading == 0 {
+		runUser(cs, c, before, res, o, afterCanon, desc, tags)
+	}
 	// same outcome on gen data
 	if cs.Gen {
 		c.Class("gen")
@@ -611,6 +679,41 @@ func runWith(cs Case, c *vrt.Ctx, before any, res *jpx.Result, extraTag string, 
 			if g := canon.String(ga, canon.Value); g != afterCanon && !one {
 				c.Fail("gen-differs", "jp."+cs.Op+"(gen)", fmt.Sprintf("%s: simple %s gen %s", desc, afterCanon, g), append(tags, "gen")...)
 			}
+		}
+	}
+}
+
+// runUser: the outcome on user-defined collections that hold the same tree. The statement
+// names simple and gen data; jp.Keyed / jp.RemovableIndexed exist so that other containers can
+// stand in for them, so the result has to be the same tree here too. Compared for Del, Remove
+// and Modify (Set creates plain maps and slices along a new path, which is not the same thing)
+// when the simple run succeeded and the selection has an order.
+func runUser(cs Case, c *vrt.Ctx, before any, res *jpx.Result, simple outcome, afterCanon, desc string, tags []string) {
+	op, one := baseOp(cs.Op)
+	if op == "set" || simple.err != nil || (one && !res.Ordered) || cs.Mod == "wrap" {
+		return
+	}
+	if res.Feat["compares-container"] {
+		// == / != on whole containers: user collections are pointers, which compare by identity
+		c.DontCare("container-comparison-on-user-types")
+		return
+	}
+	c.Class("user-collections")
+	ud := wrapUser(canon.Copy(before))
+	ou := execute(cs, ud)
+	tags = append(append([]string(nil), tags...), "user-collections")
+	switch {
+	case ou.pv != nil:
+		c.Fail("panic", "jp."+cs.Op+"(user)", fmt.Sprintf("%v at %s; %s", ou.pv, ou.st, desc), tags...)
+	case ou.err != nil:
+		c.Fail("user-error-differs", "jp."+cs.Op+"(user)", fmt.Sprintf("%s: simple err=<nil> user collections err=%v", desc, ou.err), tags...)
+	default:
+		ua := ou.root
+		if op == "del" {
+			ua = ud
+		}
+		if u := canon.String(ua, canon.Value); u != afterCanon && !one {
+			c.Fail("user-differs", "jp."+cs.Op+"(user)", fmt.Sprintf("%s: simple %s user collections %s", desc, afterCanon, u), tags...)
 		}
 	}
 }
@@ -692,6 +795,7 @@ func drawCase(t *rapid.T) Case {
 	cs.Val = wx.Enc(rapid.SampledFrom([]any{"NEW", int64(42), nil, true, []any{int64(1)}, map[string]any{"n": int64(1)}, 2.5}).Draw(t, "val"))
 	cs.Mod = rapid.SampledFrom([]string{"marker", "marker", "same", "wrap"}).Draw(t, "mod")
 	cs.Gen = rapid.IntRange(0, 2).Draw(t, "gen") == 0
+	cs.User = rapid.IntRange(0, 2).Draw(t, "user") == 0
 	return cs
 }
 
@@ -757,14 +861,14 @@ func TestEnumSlices(t *testing.T) {
 					enc := wx.Enc(data)
 					for _, sl := range slices {
 						for _, op := range sh.ops {
-							for _, gen := range []bool{false, true} {
+							for _, variant := range []int{0, 1, 2} { // simple only, + gen, + user collections
 								idx++
 								if idx%wn != wi {
 									continue
 								}
 								p := append(append(jpx.Path{}, head...), jpx.Frag{K: "slice", S: sl})
 								p = append(p, sh.tail...)
-								vrt.Eval(suite, "mutate", Case{Op: op, Path: p, Data: enc, Val: wx.Enc("NEW"), Mod: "marker", Gen: gen}, Run)
+								vrt.Eval(suite, "mutate", Case{Op: op, Path: p, Data: enc, Val: wx.Enc("NEW"), Mod: "marker", Gen: variant == 1, User: variant == 2}, Run)
 								n.Add(1)
 							}
 						}
@@ -774,7 +878,59 @@ func TestEnumSlices(t *testing.T) {
 		}
 	})
 	suite.AddExtra("slice_matrix_cases", n.Load())
-	suite.Extra("slice_matrix_exhaustive_over", fmt.Sprintf("%d slices (0-3 numbers, bounds %d..%d and no end, steps -3..3) x array lengths 0..%d x {last fragment of remove/modify(+One), then .a, then [0] for all 8 operations} x %d level(s) x {simple, gen}", len(slices), lo, hi, maxLen, len(levels)))
+	suite.Extra("slice_matrix_exhaustive_over", fmt.Sprintf("%d slices (0-3 numbers, bounds %d..%d and no end, steps -3..3) x array lengths 0..%d x {last fragment of remove/modify(+One), then .a, then [0] for all 8 operations} x %d level(s) x {simple, gen, user collections}", len(slices), lo, hi, maxLen, len(levels)))
+}
+
+// TestEnumUnions is exhaustive over a small scope: every union of two members drawn from the
+// indices -3..3 and the keys a, b, on arrays of 0..4 elements and on a two member map, as the
+// last fragment and followed by a child or index step, for all eight operations, on simple, gen
+// and user-collection data. Unions have their own remove / removeOne code per container type.
+func TestEnumUnions(t *testing.T) {
+	i := func(n int) *int { return &n }
+	k := func(s string) *string { return &s }
+	var members []jpx.UItem
+	for n := -3; n <= 3; n++ {
+		members = append(members, jpx.UItem{Idx: i(n)})
+	}
+	members = append(members, jpx.UItem{Key: k("a")}, jpx.UItem{Key: k("b")})
+	elem := func(n int) any { return map[string]any{"a": int64(n), "z": []any{int64(n), int64(n + 10)}} }
+	var datas []any
+	for size := 0; size <= 4; size++ {
+		arr := make([]any, size)
+		for j := range arr {
+			arr[j] = elem(j)
+		}
+		datas = append(datas, arr)
+	}
+	datas = append(datas, map[string]any{"a": elem(7), "b": elem(8), "c": elem(9)})
+	all := []string{"set", "setone", "del", "delone", "remove", "removeone", "modify", "modifyone"}
+	tails := [][]jpx.Frag{nil, {{K: "child", Key: "a"}}, {{K: "child", Key: "z"}, {K: "nth", N: 0}}}
+	var n atomic.Int64
+	vrt.Workers(func(wi, wn int) {
+		idx := 0
+		for _, data := range datas {
+			enc := wx.Enc(data)
+			for _, m1 := range members {
+				for _, m2 := range members {
+					for _, tail := range tails {
+						for _, op := range all {
+							for _, variant := range []int{0, 1, 2} {
+								idx++
+								if idx%wn != wi {
+									continue
+								}
+								p := append(jpx.Path{{K: "root"}, {K: "union", U: []jpx.UItem{m1, m2}}}, tail...)
+								vrt.Eval(suite, "mutate", Case{Op: op, Path: p, Data: enc, Val: wx.Enc("NEW"), Mod: "marker", Gen: variant == 1, User: variant == 2}, Run)
+								n.Add(1)
+							}
+						}
+					}
+				}
+			}
+		}
+	})
+	suite.AddExtra("union_matrix_cases", n.Load())
+	suite.Extra("union_matrix_exhaustive_over", fmt.Sprintf("%d x %d union members (indices -3..3, keys a b) x %d containers x %d continuations x 8 operations x {simple, gen, user collections}", len(members), len(members), len(datas), len(tails)))
 }
 
 func TestPropRandom(t *testing.T) {
